@@ -318,6 +318,14 @@ func init() {
 			keep = append(keep, j)
 		}
 		c.Jobs = keep
+		// the entry point itself (with an empty global registry: only package lint is initialised)
+		c.Add(&Job{Label: "sweep/LintCertificateEx (entry point, empty registry)", Pkg: rootPkg, Func: "VerifC09Entry", InitPkg: lintPkg, Sweep: true, NoReplay: true,
+			Tune: func(cf *Config) {
+				cf.AutoUF = true
+				cf.RecordInputs = true
+				cf.ListBound, cf.ByteBound = 1, 4
+				cf.Deadline = time.Now().Add(60 * time.Second)
+			}})
 		c.Extra["lints_total"] = len(lints)
 		c.Post = func(c *Check) {
 			sweepPost(c)
